@@ -447,6 +447,24 @@ func (e *Engine) Prelude(sp *spec.File) (decls []string, quants []smt.Quant) {
 				}
 				declared["fold_"+n] = true
 				decls = append(decls, fmt.Sprintf("(declare-fun fold_%s (Store) Int)", n))
+				// extensionality of a fold, in witness form (part of L-FOLD, A11): two stores with different sums differ in
+				// the contribution of some key - foldwit names one. Lets a fold be carried across a loop or a call whose
+				// contract only says which keys are unchanged.
+				decls = append(decls, fmt.Sprintf("(declare-fun foldwit_%s (Store Store) String)", n))
+				fd := f.Folds[n]
+				sv, tv := sx.Atom("s?fx"), sx.Atom("t?fx")
+				wit := sx.App("foldwit_"+n, sv, tv)
+				contrib := func(store *sx.T) *sx.T {
+					env := spec.NewEnv(f, e.Structs)
+					env.Lists = e.Lists
+					env.Vars[fd.Store] = spec.TV{T: store, Ty: spec.Type{K: spec.KStore}}
+					env.Vars[fd.KeyVar] = spec.TV{T: wit, Ty: spec.Type{K: spec.KBytes}}
+					has := sx.Not(sx.App("(_ is None)", sx.App("select", store, wit)))
+					return sx.Ite(sx.And(has, env.Tr(fd.Where).T), env.Tr(fd.Summand).T, sx.Int(0))
+				}
+				quants = append(quants, smt.Quant{Name: "fold-ext-" + n, Vars: []smt.Var{{Name: "s?fx", Sort: "Store"}, {Name: "t?fx", Sort: "Store"}},
+					Body: sx.Or(sx.App("=", sx.App("fold_"+n, sv), sx.App("fold_"+n, tv)), sx.Not(sx.App("=", contrib(sv), contrib(tv)))),
+					Pats: [][]*sx.T{{sx.App("fold_"+n, sv), sx.App("fold_"+n, tv)}}})
 			}
 		}
 	}
